@@ -422,11 +422,13 @@ def import_amisc():
     return amisc
 
 
-def coqchk(pid: str, obl: dict) -> dict:
-    """thorough tier: re-check the compiled property file and everything it depends on with coqchk"""
-    rc, out, err = sh(['coqchk', '-silent', '-o', '-Q', '.', 'AmiscV', f'AmiscV.Props.{pid}'], cwd=COQ, timeout=3000)
+def coqchk(pid, obl: dict) -> dict:
+    """thorough tier: re-check the compiled property files (the property's own and its extension files) and everything they depend on with coqchk"""
+    pids = [pid] if isinstance(pid, str) else list(pid)
+    mods = [f'AmiscV.Props.{p_}' for p_ in pids]
+    rc, out, err = sh(['coqchk', '-silent', '-o', '-Q', '.', 'AmiscV'] + mods, cwd=COQ, timeout=6000)
     txt = out + err
-    obl['checker_cmd'] += f' ; coqchk -silent -o -Q . AmiscV AmiscV.Props.{pid}'
+    obl['checker_cmd'] += ' ; coqchk -silent -o -Q . AmiscV ' + ' '.join(mods)
     if rc != 0:
         obl['problems'].append('coqchk failed: ' + txt[-2000:])
         obl['discharged'] = 0
